@@ -141,12 +141,19 @@ func runC14(seed int64, tier string, sc *Script) map[string]any {
 			}
 			sc.Op(ans, "rf apply old=%s changes=%s", o, c)
 			evals++
-			if !noUpdate && err == nil {
+			// the outcome the property speaks about: "no update needed", or the key set of
+			// the new index (duplicates would show: the list is not de-duplicated here)
+			switch {
+			case err != nil:
+				sc.Op("err", "rf outcome old=%s changes=%s", o, c)
+			case noUpdate:
+				sc.Op("none", "rf outcome old=%s changes=%s", o, c)
+			default:
 				var ks []int
 				for _, d := range res {
 					ks = append(ks, rkey(d))
 				}
-				sc.Op(fmtSet(ks), "rf keys old=%s changes=%s", o, c)
+				sc.Op("keys="+fmtSet(ks), "rf outcome old=%s changes=%s", o, c)
 			}
 		}
 	}
